@@ -20,7 +20,8 @@ From Coq Require Import String Permutation.
 From PV Require Import Base.Bytes Base.PyStr Base.Res.
 From PV Require Import Spec.Project Spec.Expect Spec.TargetLogix Spec.UploadObs Model.LogixUpload.
 From PV Require Import Proofs.UploadDefs Proofs.UploadParse Proofs.UploadFilter Proofs.UploadTemplate Proofs.UploadBlob
-  Proofs.UploadObsP Proofs.UploadJson Proofs.UploadMirror Proofs.UploadScope Proofs.UploadTop Proofs.UploadFinal.
+  Proofs.UploadObsP Proofs.UploadJson Proofs.UploadMirror Proofs.UploadScope Proofs.UploadTop Proofs.UploadHistory
+  Proofs.UploadFinal.
 From PV Require Gen.Consts.
 Open Scope Z_scope.
 
@@ -59,6 +60,45 @@ Proof.
     exists r, ov. repeat split; try assumption; try apply Heq. apply tags_json_serialisable.
 Qed.
 Print Assumptions C05_holds.
+
+(* ================================================================ for every call, whatever was uploaded before *)
+(* The driver state is threaded from call to call; get_tag_list performs the resets the code performs:
+   the template caches on every call; info['programs'|'tasks'] and _data_types for the scopes None and "*".
+   So a later get_tag_list("*") / get_tag_list(None) — on a driver in ANY state u0, whatever it uploaded
+   before, from whatever project — is the upload of a fresh driver, and mirrors the CURRENT project:
+   tags, programs, tasks AND data_types (exactly the current definitions) *)
+Theorem C05_reupload :
+  forall p pol cap rev fuel u0,
+    wf_project p = true -> upload_dom p cap -> NoDup (map full_name (visible_tags p)) -> (fuel_bound p <= fuel)%nat ->
+    (snd (get_tag_list lstate (target_call cap) rev fuel u0 (target_state p pol) ArgStar) = upload_target cap rev fuel p pol ArgStar
+     /\ snd (get_tag_list lstate (target_call cap) rev fuel u0 (target_state p pol) ArgNone) = upload_target cap rev fuel p pol ArgNone)
+    /\ (exists r ov,
+          snd (get_tag_list lstate (target_call cap) rev fuel u0 (target_state p pol) ArgStar) = Done r
+          /\ obs_of_view (with_access rev) (abstract_view p) = Some ov
+          /\ oview_equiv (obs_of_result (with_access rev) r) ov)
+    /\ (exists r ov,
+          snd (get_tag_list lstate (target_call cap) rev fuel u0 (target_state p pol) ArgNone) = Done r
+          /\ obs_of_view (with_access rev) (abstract_view (controller_scope p)) = Some ov
+          /\ oview_equiv (obs_of_result (with_access rev) r) ov).
+Proof.
+  intros p pol cap rev fuel u0 Hwf Hdom Hfull Hfuel. split; [split; apply upload_history; exact I|].
+  split; [apply upload_history_star | apply upload_history_none]; assumption.
+Qed.
+Print Assumptions C05_reupload.
+
+(* get_tag_list(program=P) ADDS to what is there (by design: drv.tags then holds P's scope): same
+   outcome, tags, programs, tasks and template cache as on a driver with an empty _data_types; its
+   data_types is the earlier dictionary updated with P's definitions ([Rel], [dts_lookup]) *)
+Theorem C05_history_program :
+  forall St call rev D0 fuel u0 s pn, u_data_types u0 = D0 ->
+    match get_tag_list St call rev fuel (fresh u0) s (ArgProgram pn), get_tag_list St call rev fuel u0 s (ArgProgram pn) with
+    | (s1, Done r1), (s2, Done r2) => s1 = s2 /\ res_tags r2 = res_tags r1 /\ Rel D0 (res_state r1) (res_state r2)
+    | (s1, Failed e1), (s2, Failed e2) => s1 = s2 /\ e1 = e2
+    | (s1, OutOfFuel), (s2, OutOfFuel) => s1 = s2
+    | _, _ => False
+    end.
+Proof. exact get_tag_list_history. Qed.
+Print Assumptions C05_history_program.
 
 (* ================================================================ the mechanisms, one by one *)
 (* paged symbol upload continuing from last instance + 1: against ANY peer that answers with a
